@@ -1,5 +1,5 @@
 (** Property C05 — the fee written in the body is the fee reported and covers the final size. *)
-From Tx3 Require Import Base Loop Loop_proofs.
+From Tx3 Require Import Base Loop Loop_proofs Loop_errors.
 
 (** whatever the loop returns was priced by the linear formula on its own payload length *)
 Theorem C05_fee_formula : forall a b m S build n st last r st' e,
@@ -22,7 +22,20 @@ Theorem C05_round_cap_refuted :
   exists r st e, resolve 1 0 0 unit osc_build tt 3 tt = Ok (Some r, st, e) /\ e = false /\ c_body_fee r <> c_fee r.
 Proof. exact resolve_fixed_point_refuted. Qed.
 
+(** a pass that fails, fails the resolution: whenever a pass the loop executes - the first or a
+    later one - ends in an error, a panic or an overflow, the loop answers with exactly that
+    failure; a transaction built by an earlier pass (priced with an older fee) is never handed
+    back in its place *)
+Theorem C05_failing_pass_fails_resolution : forall a b m S build n st last x,
+  pass_fails a b m S build n st last x -> same_failure x (resolve_loop a b m S build n st last).
+Proof. exact failing_pass_fails_resolution. Qed.
+Theorem C05_failing_pass_no_transaction : forall a b m S build n st last x r,
+  pass_fails a b m S build n st last x -> resolve_loop a b m S build n st last <> Ok r.
+Proof. exact failing_pass_no_transaction. Qed.
+
 Print Assumptions C05_fee_formula.
 Print Assumptions C05_converged_fixed_point.
 Print Assumptions C05_passes_bounded.
 Print Assumptions C05_round_cap_refuted.
+Print Assumptions C05_failing_pass_fails_resolution.
+Print Assumptions C05_failing_pass_no_transaction.
